@@ -48,6 +48,8 @@ fn weight(c: &Choice, bias: &Bias) -> f64 {
         Choice::FlushAck => 1.5,
         Choice::FailLaunch { .. } => 0.4,
         Choice::Query { .. } => 0.0,
+        Choice::Prune => 0.3,
+        Choice::QueueEvent { .. } => 0.3,
     }
 }
 
@@ -129,6 +131,17 @@ pub fn run_one(
     source: Source,
     out: &mut dyn Write,
     taken: &mut Vec<Choice>,
+) -> RunStats {
+    run_one_with(profile, run, source, out, taken, None)
+}
+
+pub fn run_one_with(
+    profile: &Profile,
+    run: u64,
+    source: Source,
+    out: &mut dyn Write,
+    taken: &mut Vec<Choice>,
+    mut post: Option<&mut dyn FnMut(&Cluster)>,
 ) -> RunStats {
     let rt = tokio::runtime::Builder::new_current_thread()
         .enable_all()
@@ -255,6 +268,11 @@ pub fn run_one(
             }
         }
         stats.steps = i;
+        if !stats.panicked {
+            if let Some(p) = post.as_mut() {
+                p(&c);
+            }
+        }
         c.shutdown();
         stats
     });
